@@ -77,6 +77,7 @@ fn prove_with_hint<S: Setup>(
     publics: &[S::E],
     alt: Vec<S::E>,
     recompose: bool,
+    forge_boolcheck_rows: bool,
 ) -> Outcome {
     let packing = TablePacking::default();
     let cpd = match guarded(|| S::prep_x(circuit, &packing, ConstraintProfile::Standard, recompose)) {
@@ -101,6 +102,24 @@ fn prove_with_hint<S: Setup>(
         Ok(t) => t,
         Err(e) => return Outcome::RunRejected(format!("{e:?}").chars().take(80).collect()),
     };
+    let mut traces = traces;
+    if forge_boolcheck_rows {
+        // what a prover that writes its own ALU trace does to a bool-check row whose checked value
+        // is not boolean: the `a` / `c` cells become 0, `out` keeps the (non-boolean) slot value
+        let alu = &mut traces.alu_trace;
+        let mut forged = 0;
+        for (row, kind) in alu.op_kind.iter().enumerate() {
+            let a = alu.values[row][0];
+            if *kind == p3_circuit::AluOpKind::BoolCheck && a != S::E::ZERO && a != S::E::ONE {
+                alu.values[row][0] = S::E::ZERO;
+                alu.values[row][2] = S::E::ZERO;
+                forged += 1;
+            }
+        }
+        if forged == 0 {
+            return Outcome::NoAlternative;
+        }
+    }
     let prover = S::prover_x(packing, recompose, false);
     match guarded(|| S::prove(&prover, &traces, &cpd)) {
         Ok(Ok(proof)) => match guarded(|| S::verify(&prover, &proof)) {
@@ -116,8 +135,8 @@ fn prove_with_hint<S: Setup>(
 /// decompose_to_bits(x, n) with the bits of x + k·p.
 /// `nonbool = Some((j, i))`: instead of the bits of x + k·p, the canonical bits with bit `i` flipped
 /// and bit `j` set to the (non-boolean) field element that restores the recomposition identity.
-fn bits_case<S: Setup>(x: u64, class: &str, n: usize, k: u64, use_bits: u32, nonbool: Option<(usize, usize)>) -> CaseResult {
-    let key = format!("{}:bits:{class}:n{n}:k{k}:use{use_bits}:nb{nonbool:?}", S::NAME);
+fn bits_case<S: Setup>(x: u64, class: &str, n: usize, k: u64, use_bits: u32, nonbool: Option<(usize, usize)>, forge_rows: bool) -> CaseResult {
+    let key = format!("{}:bits:{class}:n{n}:k{k}:use{use_bits}:nb{nonbool:?}:forge{forge_rows}", S::NAME);
     let k = if nonbool.is_some() { 0 } else { k };
     let p = S::order() as u128;
     let alt_val = x as u128 + k as u128 * p;
@@ -191,17 +210,17 @@ fn bits_case<S: Setup>(x: u64, class: &str, n: usize, k: u64, use_bits: u32, non
         };
         o != out_val
     });
-    let outcome = prove_with_hint::<S>(&mut circuit, &[xe, out_val], alt_bits, false);
+    let outcome = prove_with_hint::<S>(&mut circuit, &[xe, out_val], alt_bits, false, forge_rows && nonbool.is_some());
     let full_width = n == limb_bits::<S>();
     match outcome {
         Outcome::Accepted => CaseResult::violated(
             key,
             if nonbool.is_some() {
-                format!("noncanonical-accepted/bits/nonboolean-bit/{nb_class}")
+                format!("noncanonical-accepted/bits/nonboolean-bit/{nb_class}{}", if forge_rows { "+forged-boolcheck-row" } else { "" })
             } else {
                 format!("noncanonical-accepted/bits/{}-bit-limb{}", limb_bits::<S>(), if full_width { "" } else { "/narrow-width" })
             },
-            json!({"setup": S::NAME, "gadget": "decompose_to_bits", "x": x, "n_bits": n, "k": k, "use": use_bits, "nonbool": nonbool.map(|(j, i)| vec![j, i]),
+            json!({"setup": S::NAME, "gadget": "decompose_to_bits", "x": x, "n_bits": n, "k": k, "use": use_bits, "nonbool": nonbool.map(|(j, i)| vec![j, i]), "forged_boolcheck_rows": forge_rows,
                    "alternative_value": alt_val.to_string(), "observable_output_differs_from_canonical": differs_from_canonical}),
         ),
         Outcome::NoAlternative => CaseResult::inconclusive(key, "hint op not found"),
@@ -294,7 +313,7 @@ fn coeff_case<S: Setup>(rng: &mut rand::rngs::SmallRng, family: u32, recompose_n
     };
     let mut outcome = Outcome::NoAlternative;
     for out_val in out_vals {
-        outcome = prove_with_hint::<S>(&mut circuit, &[x, out_val], alt.clone(), recompose);
+        outcome = prove_with_hint::<S>(&mut circuit, &[x, out_val], alt.clone(), recompose, false);
         if matches!(outcome, Outcome::Accepted) {
             break;
         }
@@ -334,7 +353,12 @@ fn case<S: Setup>(seed: u64, idx: usize, _tier: Tier) -> Vec<CaseResult> {
         } else {
             None
         };
-        let r = bits_case::<S>(x, class, n, k, rng.random_range(0..3), nonbool);
+        let use_bits = rng.random_range(0..3);
+        let r = bits_case::<S>(x, class, n, k, use_bits, nonbool, false);
+        if nonbool.is_some() {
+            // the same deviation by a prover that also writes the ALU trace itself
+            out.push(bits_case::<S>(x, class, n, k, use_bits, nonbool, true));
+        }
         out.push(if idx < 8 {
             r.with_sample(json!({"setup": S::NAME, "gadget": "decompose_to_bits", "x": x, "class": class, "n": n, "k": k}))
         } else {
@@ -359,6 +383,7 @@ fn replay(d: &Value) -> Vec<CaseResult> {
                 d["k"].as_u64().unwrap(),
                 d["use"].as_u64().unwrap() as u32,
                 d["nonbool"].as_array().map(|a| (a[0].as_u64().unwrap() as usize, a[1].as_u64().unwrap() as usize)),
+                d["forged_boolcheck_rows"].as_bool().unwrap_or(false),
             )]
         } else {
             let mut rng = case_rng(0, "c12-replay", 0);
@@ -379,7 +404,7 @@ fn main() {
          alternative decomposition satisfying the recomposition identity; non-trivial = the alternative differs from \
          the canonical decomposition and was actually run/proven; distinct by (setup, gadget, class, width, k, use)",
     );
-    rep.assume("a deviating prover controls hint outputs (Op::Hint executors) but not the circuit; verifier = verify_all_tables with the honest prover data");
+    rep.assume("a deviating prover controls hint outputs (Op::Hint executors) and, in the `+forged-boolcheck-row` family, the a/c cells of the ALU bool-check rows of its own trace, but not the circuit; verifier = verify_all_tables with the honest prover data");
     rep.assume("challenger gadgets (sample_bits, check_pow_witness, observe_ext) are covered with the same deviations by C06");
     if let Some(p) = &args.replay {
         let v: Value = serde_json::from_str(&std::fs::read_to_string(p).expect("replay file")).unwrap();
